@@ -180,6 +180,44 @@ pub fn explore(acc: &mut Acc, im: &mut Impl, name: &str, session_text: &str, for
         }
         acc.outcome("same");
     }
+    // the VM's own collection points, each made a real collection: what the VM holds only in its own locals
+    // when it polls the collector must have been rooted
+    {
+        let run = crate::gcsched::run_scheduled_eager(im, forms, GcSchedule::Never, false, true, true);
+        acc.evals += 1;
+        acc.count("instructions_executed", run.instructions);
+        acc.count("audited_states", run.audited_states);
+        acc.count("collections_at_the_vms_own_polls", run.collections);
+        if run.collections > 0 {
+            distinct = true;
+        }
+        if !run.problems.is_empty() {
+            let inv = run.problems[0].split(':').next().unwrap_or("I?").to_string();
+            acc.violation(Violation {
+                key: format!("{}|own-polls|{}", name, inv),
+                class: Some(format!("own-polls/audit-{}", inv)),
+                observed: format!("heap-invariant-{}", inv),
+                detail: json!({"session": [session_text], "gc_schedule": "every poll of the collector collects", "problems": run.problems, "property_note": prop}),
+            });
+            if run.panicked {
+                return false;
+            }
+        } else if !same_observations(&base, &run) {
+            acc.violation(Violation {
+                key: format!("{}|own-polls", name),
+                class: Some("own-polls/observable".into()),
+                observed: if run.panicked { "panic-under-collection".into() } else { "differs-from-run-without-collection".into() },
+                detail: json!({"session": [session_text], "gc_schedule": "every poll of the collector collects",
+                    "without_collection": {"results": base.outs, "output": base.output},
+                    "with_collection": {"results": run.outs, "output": run.output}}),
+            });
+            if run.panicked {
+                return false;
+            }
+        } else {
+            acc.outcome("same");
+        }
+    }
     if distinct {
         acc.nontrivial += 1;
     }
@@ -242,7 +280,12 @@ pub fn run(ctx: &Ctx) -> i32 {
                 if let Some(p) = c01::chain_program(i, d) {
                     let text = format!("(define g 100) {} g", p);
                     if let Ok(forms) = parse_forms(&text) {
-                        let b = bounds(ctx.tier);
+                        let mut b = bounds(ctx.tier);
+                        if d == 2 {
+                            // 57 k programs: all periodic schedules and every single boundary, no boundary pairs
+                            b.s1_max_n = b.s1_max_n.min(150);
+                            b.s2_max_n = 0;
+                        }
                         let im = vm_for(st);
                         if !explore(acc, im, &format!("chain:{}", p), &format!("{} {}", c01::PREAMBLE, text), &forms, &b, "C03") {
                             st.im = None;
